@@ -53,6 +53,7 @@ CONTRACTS = {
         'ghost_params': {'a': 'asg'},
         'requires': WF,
         'raises': {},
+        'modifies': ['self._formula._clauses', 'self._formula._numvar'],
         'loops': {
             0: {'nest': [dict(FR, counter='_a', ghost_at_entry={'C0': 'self._formula._clauses'}, ghost_at_entry_vals={'NV': 'self._formula._numvar'},
                               inv=KEEP + [acc(D1)]),
